@@ -24,6 +24,10 @@ func main() {
 		}
 		vk.Fatalf("unknown worker part %q", *part)
 	}
+	if r.ReplayPath != "" {
+		replayCrash(r)
+		r.Finish()
+	}
 	evals := 0
 	rule := ""
 	if *part == "all" || *part == "crash" {
@@ -38,7 +42,7 @@ func main() {
 		rule += "pruning: chain length x retention window x validator-change height x (once | twice with one more block); every record needed for the retained heights is probed after each pruner"
 	}
 	r.Set("evaluations", evals)
-	r.Set("distinct_nontrivial", evals)
+	r.Set("distinct_nontrivial", r.Get("distinct_restart_outcomes")+r.Get("pruning_configurations"))
 	r.Set("rule", rule)
 	r.Finish()
 }
